@@ -57,6 +57,27 @@ NEEDS = {
     "C26-2": ("C26", "two vertex types whose names differ only by leading / trailing underscores (`Account`, `_Account`), both with properties or both with edges"),
     "C27-1": ("C27", "a list nested >= 2 levels with an empty or all-null inner list next to a non-empty one, as argument or as adapter output"),
     "C27-2": ("C27", "an edge with a nullable parameter without non-null default, omitted or null in the query, and an adapter that indexes the parameter mapping"),
+    "C01r-1": ("C01", "second round: same early-exit defect as C22-1 (a `>=`/`>` count filter plus a `!=`/`not_one_of` count filter on a fold nothing observes), judged against the declarative semantics"),
+    "C01r-2": ("C01", "second round: a nullable edge parameter with an explicit schema default, omitted in the query (same mechanism as C01-1, written independently)"),
+    "C01r-3": ("C01", "second round: @recurse that needs an implicit coercion, depth >= 3, a vertex failing the coercion at depth <= d-2 (ensure_suspended no longer idempotent: outputs become null)"),
+    "C02r-1": ("C02", "second round: a @tag inside @optional used by a filter on another vertex, optional existing for some adjacent contexts and not others, resolve_property reading ahead >= 2 (stale Rc<Cell<bool>> across the adapter call)"),
+    "C02r-2": ("C02", "second round: @recurse(depth >= 2) over an edge needing an implicit coercion, an adapter whose resolve_coercion still holds buffered outputs when its input ends (new end-of-input assertion)"),
+    "C02r-3": ("C02", "second round: a @fold under an @optional with mixed existence in adjacent contexts, resolve_neighbors reading ahead >= 2 across an exists/missing boundary"),
+    "C04r-1": ("C04", "second round: a fold count tagged INSIDE an @optional that is missing for a row, consumed by a filter on a later vertex of the same component, an adapter resolving dynamic hints (count treated as 0)"),
+    "C04r-2": ("C04", "second round: a fold-count filter with an exclusive lower bound and a NEGATIVE variable value (`count > -1`), a vertex whose fold is empty, an adapter pruning by mandatory edges"),
+    "C04r-3": ("C04", "second round: two tag-based filters on the same property where the priority winner (`=`) is not written first (`> %low` then `= %wanted`): operator of one filter paired with the tag of the other"),
+    "C05r-1": ("C05", "second round: a tag consumed only through a list or string operator (contains, not_one_of, has_prefix, regex, ...) in the same component, tagged property otherwise unused"),
+    "C05r-2": ("C05", "second round: a tag defined in a sibling branch written BEFORE a fold that hangs off an earlier vertex, consumed inside the fold / nested fold / its count filter"),
+    "C05r-3": ("C05", "second round: a tag on property P of vertex V used as the operand of a filter on a DIFFERENT property Q of the same V, P otherwise unused"),
+    "C09r-1": ("C09", "second round: two differently named @tags on the same property, both used inside one @fold (import de-duplicated by name, removed twice at run time)"),
+    "C09r-2": ("C09", "second round: @recurse inside a missing @optional (same mechanism as C09-1, written independently)"),
+    "C09r-3": ("C09", "second round: an integer ARGUMENT for a Float variable (validation widened) used with an ordering operator on a Float property: unreachable!() in filtering.rs"),
+    "C11r-1": ("C11", "second round: one fold using >= 2 different outside tags with interleaved uses (%a, %b, %a): imported_tags = [a, b, a] (Vec::dedup only removes adjacent duplicates)"),
+    "C11r-2": ("C11", "second round: the same variable used in a fold-count filter and, earlier in processing order, on a vertex of the parent component or in an earlier sibling fold, with a wider type"),
+    "C11r-3": ("C11", "second round: a fold-count @tag used by a filter on an EARLIER vertex of the same component (the fold's own parent vertex): used-before-definition check skipped for count tags"),
+    "C13r-1": ("C13", "second round: nested folds exactly one of which is below an @optional (same mechanism as C13-1, written independently)"),
+    "C13r-2": ("C13", "second round: @optional -> @fold -> nested @fold with an output, and a vertex where the optional edge does not exist (nested fold's output names missing)"),
+    "C13r-3": ("C13", "second round: a @fold with outputs evaluated before a @recurse edge in the same component, data where a vertex has >= 2 neighbours along the recursed edge (folded values dropped for sibling contexts)"),
     "C22-1": ("C22", "a lower-bound count filter (>= / >) together with a != / not_one_of filter on the same fold count, both with variables, nothing observing the fold, fold larger than the bound"),
     "C22-2": ("C22", "an outer fold with only lower-bound count filters whose only observed content is a nested fold's count @output, outer fold larger than the bound"),
 }
